@@ -16,38 +16,38 @@ PLANS = {
                       ('long', 300), ('threads', 400),
                       ('long_threads', 150), ('huge_threads', 16),
                       ('capacity', 24)],
-            'thorough': [('frag', 220000), ('corrupt', 60000),
-                         ('random', 20000), ('long', 8000),
-                         ('threads', 12000), ('long_threads', 4000),
-                         ('huge_threads', 1500), ('capacity', 800)]},
+            'thorough': [('frag', 88000), ('corrupt', 24000),
+                         ('random', 8000), ('long', 3200),
+                         ('threads', 4800), ('long_threads', 1600),
+                         ('huge_threads', 600), ('capacity', 320)]},
     'C07': {'quick': [('frag', 8000), ('sweep', 1200), ('threads', 400),
                       ('huge_threads', 16), ('capacity', 24)],
-            'thorough': [('frag', 200000), ('sweep', 20000),
-                         ('threads', 12000), ('huge_threads', 1500),
-                         ('capacity', 800)]},
+            'thorough': [('frag', 80000), ('sweep', 8000),
+                         ('threads', 4800), ('huge_threads', 600),
+                         ('capacity', 320)]},
     'C08': {'quick': [('corrupt', 10000), ('random', 1500), ('frag', 800),
                       ('long', 300), ('truncsweep', 400), ('bytesweep', 150),
                       ('fieldsweep', 120), ('soak', 16), ('capacity', 24)],
-            'thorough': [('corrupt', 250000), ('random', 30000),
-                         ('frag', 10000), ('long', 8000),
-                         ('truncsweep', 12000), ('bytesweep', 3000),
-                         ('fieldsweep', 3000), ('soak', 400),
-                         ('capacity', 800)]},
+            'thorough': [('corrupt', 100000), ('random', 12000),
+                         ('frag', 4000), ('long', 3200),
+                         ('truncsweep', 4800), ('bytesweep', 1200),
+                         ('fieldsweep', 1200), ('soak', 160),
+                         ('capacity', 320)]},
     'C09': {'quick': [('corrupt', 12000), ('random', 2000), ('long', 500),
                       ('truncsweep', 400), ('bytesweep', 150),
                       ('fieldsweep', 120), ('threads', 600),
                       ('long_threads', 400), ('huge_threads', 16),
                       ('capacity', 24)],
-            'thorough': [('corrupt', 300000), ('random', 40000),
-                         ('long', 12000), ('truncsweep', 12000),
-                         ('bytesweep', 3000), ('fieldsweep', 3000),
-                         ('threads', 15000), ('long_threads', 6000),
-                         ('huge_threads', 1500), ('capacity', 800)]},
+            'thorough': [('corrupt', 120000), ('random', 16000),
+                         ('long', 4800), ('truncsweep', 4800),
+                         ('bytesweep', 1200), ('fieldsweep', 1200),
+                         ('threads', 6000), ('long_threads', 2400),
+                         ('huge_threads', 600), ('capacity', 320)]},
     'C20': {'quick': [('frag', 7000), ('corrupt', 3000), ('random', 2500),
                       ('threads', 400), ('capacity', 16)],
-            'thorough': [('frag', 180000), ('corrupt', 60000),
-                         ('random', 60000), ('threads', 12000),
-                         ('capacity', 500)]},
+            'thorough': [('frag', 72000), ('corrupt', 24000),
+                         ('random', 24000), ('threads', 4800),
+                         ('capacity', 200)]},
 }
 
 LEVEL = {'C06': 'exploration', 'C07': 'fault_enumeration',
